@@ -35,6 +35,7 @@ def main(prop=PROP, doc=__doc__, goals=GOALS):
     sh = F.default_shards(t, (prop,), kn, tools=("git",))
     sh += F.with_tool(F.default_shards(t, (prop,), kn, tools=("git",)), "builtin", only=("act-git-codeA", "act-git-md", "pair-", "scn-long", "scn-lines", "scn-unicode"))
     sh += F.with_tool(F.default_shards(t, (prop,), kn, tools=("git",)), "diff3", only=("act-git-codeA", "act-git-md", "scn-long", "scn-lines"))
+    sh += F.with_tool(F.default_shards(t, (prop,), kn, tools=("git",)), "diffonly", only=("act-git-codeA", "scn-lines"))
     r = runner.explore("harness.fam_nbmerge", sh, nproc=common.nproc(),
                        budget_s=400 if t == "quick" else 3000)
     chk.add("default-strategy", r)
